@@ -12,7 +12,11 @@ DISCONNECT, CLIENT_HELLO, KEEP_ALIVE}; the handler raising in the next
 connect / handle_message / disconnect / update / starting / shutdown; the
 handler calling client.disconnect() or client.send() from inside an event;
 ctxt.shutdown() now; the token generator returning the same random bytes
-again (collisions are enumerated, not waited for).
+again (collisions are enumerated, not waited for); a client that sends its
+CORRECT challenge response more than once under fresh datagram / message
+numbers - several times in its handshake datagram (hand-sealed at emission, or
+queued by the application's connect callback through the library), again in
+its own datagram or inside a bundle on the established connection.
 """
 import struct
 import threading
@@ -23,6 +27,7 @@ from mc.world import World, Monitor
 core.import_repo()
 from cryptography.hazmat.primitives.ciphers.aead import AESGCM  # noqa
 from mpgameserver.connection import ConnectionStatus, PacketType, RetryMode  # noqa
+from mpgameserver.connection import HandshakeClientChallengeResponseMessage  # noqa
 
 PROPERTY = "C10"
 LEVEL = "model_checking"
@@ -62,6 +67,7 @@ class LifecycleMonitor(Monitor):
         self.replays = []        # (client index, datagram, since tick): delivered again every 8 ticks
         self.cr_replace = []     # armed: inner types that replace client 1's next challenge response
         self.cr_replaced = False
+        self.cr_keep = False     # the replacement contains the RIGHT challenge response: the peer completes the handshake and stays
         self.objs = {}
 
     def on_send(self, w, d):
@@ -73,8 +79,21 @@ class LifecycleMonitor(Monitor):
             seq = struct.unpack(">H", d.data[8:10])[0]
             msgs = []
             for j, t in enumerate(self.cr_replace[0]):
+                if CRR in self.cr_replace[0]:
+                    # a retrying client: message numbers continue the client's own count (its hello was message 1, the
+                    # challenge response that is replaced here carries conn.seq_message), the peer completes the handshake
+                    self.cr_keep = True
+                    mseq = (int(conn.seq_message) - 1 + j) % 65535 + 1
+                    if t is CRR:
+                        # the client's own, correct challenge response (library constructor)
+                        msgs.append((mseq, T.CHALLENGE_RESP.value, challenge_body(conn)))
+                    else:
+                        msgs.append((mseq, t.value, b"tag:1:%d:99:evil" % w.clients[1].session if t == T.APP else b""))
+                    continue
                 body = b"tag:1:%d:99:evil" % w.clients[1].session if t == T.APP else (b"\x00\x0f" if t in (T.CLIENT_HELLO, T.CHALLENGE_RESP) else b"")
                 msgs.append((j + 1, t.value, body))
+            if self.cr_keep:
+                conn.seq_message = type(conn.seq_message)(msgs[-1][0])   # the retrying client keeps its own counters consistent
             d.data = sealed(conn.session_key_bytes, True, int(w.vt.now), seq, 0, T.CHALLENGE_RESP.value, msgs)
 
     def state_tuple(self):
@@ -158,6 +177,32 @@ MALICIOUS = [
     [T.DISCONNECT, T.CHALLENGE_RESP], [T.SERVER_HELLO, T.APP], [T.APP_FRAGMENT, T.DISCONNECT],
 ]
 EVENTS = ["connect", "handle_message", "disconnect", "update", "starting", "shutdown"]
+
+
+class _Retry(object):
+    """inner type 'this client's challenge response AGAIN': type CHALLENGE_RESP, the RIGHT token, fresh numbers"""
+    value = "3r"
+
+
+CRR = _Retry()
+# a client that retries its challenge: the repeated response gets past the duplicate filters (fresh datagram and message numbers)
+MALICIOUS_RETRY = [[CRR, CRR], [T.APP, CRR], [T.DISCONNECT, CRR]]
+HALF_OPEN_RETRY = [[CRR, CRR], [CRR, CRR, T.APP], [CRR, T.APP, CRR]]
+RETRY_AT_CONNECT = [(2, False), (3, False), (2, True)]     # (copies of the challenge response in the first datagram, plus a message)
+
+
+def challenge_body(conn):
+    reply = HandshakeClientChallengeResponseMessage()
+    reply.token = conn.token
+    return reply.dumpb()
+
+
+def resend_challenge(w, k, with_msg=False):
+    """the application-side connection queues its challenge response once more (library path: own counters, own sealing)"""
+    conn = w.clients[k].client.conn
+    conn._send_type(T.CHALLENGE_RESP, challenge_body(conn), RetryMode.NONE, None)
+    if with_msg:
+        client_send(w, k, b"with-retry")
 
 
 def connect_client(w, i):
@@ -265,6 +310,54 @@ def menu(w, mon, ts, tick):
             out.append(("handler disconnects the OTHER clients%s inside the next %s" % (" and calls ctxt.shutdown()" if also_shutdown else "", ev), arm3))
     out.append(("ctxt.shutdown() now", lambda: w.ctxt.shutdown()))
     out.append(("token generator repeats its last answer", lambda: setattr(ts, "collide", ts.collide + 1)))
+    # ---- a client that sends its (correct) challenge response MORE THAN ONCE.  New kinds are appended: the indices of the
+    # kinds above do not move.
+    # (1) on the established connection, through the library's own send path: own datagram, fresh datagram / message numbers
+    for k in (0, 1):
+        ce = w.clients[k]
+        if ce.client is not None and ce.client.conn is not None and ce.client.conn.status == ConnectionStatus.CONNECTED and ce.client.conn.session_key_bytes:
+            out.append(("client %d sends its challenge response again (right token, fresh numbers)" % k, lambda k=k: resend_challenge(w, k)))
+    ce1 = w.clients[1]
+    if ce1.client is not None and ce1.client.conn is not None and ce1.client.conn.status == ConnectionStatus.CONNECTED and ce1.client.conn.session_key_bytes:
+        out.append(("client 1 sends its challenge response again (right token, fresh numbers) and a message in the same frame", lambda: resend_challenge(w, 1, True)))
+    # (2) the same inside multi-message datagrams of the authenticated client
+    if c1 is not None and c1.session_key_bytes and sc1 is not None:
+        for types in MALICIOUS_RETRY:
+            def act_r(types=types):
+                conn = w.clients[1].conn
+                seq = int(conn.seq_sending + 1)
+                conn.seq_sending = conn.seq_sending + 1
+                mseq = int(conn.seq_message)
+                msgs = []
+                for t in types:
+                    mseq = mseq % 65535 + 1
+                    if t is CRR:
+                        msgs.append((mseq, T.CHALLENGE_RESP.value, challenge_body(conn)))
+                    else:
+                        msgs.append((mseq, t.value, b"tag:1:%d:99:evil" % w.clients[1].session if t == T.APP else b""))
+                conn.seq_message = type(conn.seq_message)(mseq)
+                w.inject("s", sealed(conn.session_key_bytes, True, int(w.vt.now), seq, 0, msgs[0][1], msgs), client_addr=a1)
+            out.append(("authenticated client 1 sends inner types %s (3r = its own challenge response again, right token)" % "/".join(str(t.value) for t in types), act_r))
+    # (3) in the handshake datagram itself: the first datagram that client 1 seals carries its challenge response several times
+    if tick <= 3 and not mon.cr_replace and w.clients[1].addr not in w.ctxt.connections:
+        for types in HALF_OPEN_RETRY:
+            out.append(("client 1's challenge datagram carries inner types %s (3r = its challenge response, right token, one message number each)" % "/".join(str(t.value) for t in types),
+                        lambda types=types: mon.cr_replace.append(types)))
+    # (4) the same through the library: the application's connect callback (it runs right after the challenge response was
+    # queued) queues it again, so that the client's first sealed datagram carries it twice / three times
+    if tick == 0 and w.on_connected is None and all(ce.client is None for ce in w.clients):
+        for k in (0, 1):
+            for copies, with_msg in RETRY_AT_CONNECT:
+                def arm4(k=k, copies=copies, with_msg=with_msg):
+                    def on_connected(w_, ce, ok):
+                        if ok and ce.index == k and ce.client is not None and ce.client.conn is not None:
+                            for _ in range(copies - 1):
+                                resend_challenge(w_, k)
+                            if with_msg:
+                                client_send(w_, k, b"with-challenge")
+                    w.on_connected = on_connected
+                out.append(("client %d queues its challenge response %d times%s before its first sealed datagram leaves (every session)" % (
+                    k, copies, " and a message" if with_msg else ""), arm4))
     return out
 
 
@@ -332,7 +425,7 @@ def scenario(params, ch):
                         ch.flag("disconnect-once", "a client that went silent is not disconnected after the connection timeout%s" % (
                             " (old datagrams of it keep arriving)" if any(r[0] == k_ for r in mon.replays) else ""),
                             "client %d session %d silent since tick %d, still connected at tick %d (timeout 32 ticks)" % (k_, sess_, t0_, t))
-            if mon.cr_replaced and w.clients[1].client is not None and w.clients[1].client.conn is not None and not getattr(mon, "c1_stopped", False):
+            if mon.cr_replaced and not mon.cr_keep and w.clients[1].client is not None and w.clients[1].client.conn is not None and not getattr(mon, "c1_stopped", False):
                 mon.c1_stopped = True
                 w.clients[1].client.forceDisconnect()      # the rogue peer never completes the handshake
             if w.baton.dead:
@@ -405,6 +498,12 @@ def run(tier, seed):
         "distinct_outcomes": len(st.outcomes), "evaluations": st.executions, "distinct_nontrivial": len(st.outcomes),
         "rule": "every choice of <=%d deviations from a menu of ~50 kinds at %d tick positions of a two-client run with shutdown; outcomes = distinct (handler event sequence, final automaton states)" % (bound, len(ticks)),
         "exhaustive": not st.capped, "samples": st.samples[:4],
+        # repeated (correct) challenge responses with fresh numbers: kinds offered by the menu
+        "challenge_retry_kinds": {
+            "live_connection_library_path": 3, "live_connection_bundles": ["/".join(str(t.value) for t in ts_) for ts_ in MALICIOUS_RETRY],
+            "handshake_datagram": ["/".join(str(t.value) for t in ts_) for ts_ in HALF_OPEN_RETRY],
+            "queued_in_connect_callback": ["client %d x%d%s" % (k, c, "+msg" if m else "") for k in (0, 1) for c, m in RETRY_AT_CONNECT],
+        },
     }
     rep.assumptions = ["client objects are identified by a harness serial with a strong reference (not by id())",
                        "token collisions are injected as 'the generator repeats its last answer'", "connection timeout 0.5 s, temp timeout 0.25 s, tick 1/64 s"]
